@@ -17,7 +17,7 @@ REG = {'fns': {}, 'classes': [], 'specfns': {}, 'lemmas': [], 'props': {}}
 
 
 class LoopSpec(object):
-    def __init__(self, invariants=(), index=None, decreases=None, unroll=False, ghost=None, modifies=None, header=None):
+    def __init__(self, invariants=(), index=None, decreases=None, unroll=False, ghost=None, modifies=None, header=None, body_ghost=None):
         self.header = header      # e.g. 'for v in varz': preferred over the ordinal key when it matches a loop
         # (name, expr) or (name, expr, uses): `uses` lists the other invariants of this loop that the
         # inductive step of `name` needs; the rest are dropped from its hypotheses (always sound)
@@ -28,6 +28,11 @@ class LoopSpec(object):
         self.unroll = unroll
         self.ghost = ghost or {}
         self.modifies = modifies
+        # ghost statements executed at the start of every iteration (after the loop target is bound)
+        self.body_ghost = ast.parse(body_ghost).body if body_ghost else []
+        for g in self.body_ghost:
+            for x in ast.walk(g):
+                x._is_ghost = True
 
 
 class RaisesSpec(object):
